@@ -685,3 +685,192 @@ Proof.
     destruct (raw_loop fuel dbg e tbl (mkRaw rest (off + (nlen (x_bytes x) + nlen (xbytes l)) + nlen rest) (end_depth (x_post x) l)))
       as [[l' err]| | |]; reflexivity.
 Qed.
+
+(* ------------------------------------------------------------------ *)
+(** * A whole unit *)
+
+Lemma placed_nodes codes : forall t off, map snd (placed codes off t) = nodes t.
+Proof.
+  induction t as [tag flag items kids IH] using tree_ind'. intros off.
+  rewrite placed_unfold. cbn [map snd nodes t_kids]. f_equal.
+  generalize (kids_off codes off (Node tag flag items kids)). clear -IH.
+  induction kids as [|k kids IHk]; intros o; [reflexivity|]. inversion IH; subst.
+  rewrite on_list_cons, map_app. cbn [flat_map]. f_equal; auto.
+Qed.
+
+Lemma placed_list_nodes codes : forall f off,
+  map snd (on_list (placed codes) (tree_size codes) off f) = forest_nodes f.
+Proof.
+  induction f as [|t f IH]; intros off; [reflexivity|].
+  rewrite on_list_cons, map_app, placed_nodes, IH. reflexivity.
+Qed.
+
+Definition all_covered (tbl : abbrevs) (codes : coding) (f : list tree) : Prop :=
+  Forall (covered tbl codes) (forest_nodes f).
+
+Lemma placed_ok_all e tbl codes off f :
+  all_covered tbl codes f -> forest_ok codes e f -> sibs_fit codes off f ->
+  Forall (placed_ok e tbl codes) (on_list (placed codes) (tree_size codes) off f).
+Proof.
+  unfold all_covered, forest_ok, sibs_fit. rewrite <- (placed_list_nodes codes f off).
+  set (l := on_list (placed codes) (tree_size codes) off f). clearbody l.
+  rewrite !Forall_forall. intros H1 H2 H3 p Hp. unfold placed_ok. split; [|split].
+  - apply H1. apply in_map. exact Hp.
+  - apply H2. apply in_map. exact Hp.
+  - apply H3. exact Hp.
+Qed.
+
+(* all events of a unit body *)
+Definition body_evs (codes : coding) (bigend : bool) (off : N) (f : list tree) (pad : nat) : list xev :=
+  evs_list codes bigend 0 off f ++ pad_evs (off + forest_size codes f) 0 pad.
+
+Lemma body_evs_bytes codes bigend off f pad :
+  xbytes (body_evs codes bigend off f pad) = enc_forest codes bigend off f pad.
+Proof. unfold body_evs, enc_forest. rewrite xbytes_app, evs_list_bytes, pad_evs_bytes. reflexivity. Qed.
+
+Lemma body_evs_dies codes bigend off f pad :
+  map x_die (body_evs codes bigend off f pad) = raw_seq codes off f pad.
+Proof. unfold body_evs, raw_seq. rewrite map_app, evs_list_dies, pad_evs_dies. reflexivity. Qed.
+
+Lemma body_evs_chain codes bigend off f pad : chain off 0 (body_evs codes bigend off f pad).
+Proof.
+  unfold body_evs. apply chain_app. destruct (evs_list_chain codes bigend 0 f off) as [C E].
+  split; [exact C|]. rewrite E, evs_list_bytes, enc_forest_list_len. apply pad_evs_chain.
+Qed.
+
+Lemma body_evs_ok dbg e tbl codes off f pad : addr_size_ok e ->
+  all_covered tbl codes f -> forest_ok codes e f -> sibs_fit codes off f ->
+  Forall (ev_ok dbg e tbl) (body_evs codes (be e) off f pad).
+Proof.
+  intros He H1 H2 H3. unfold body_evs. apply Forall_app. split.
+  - apply evs_list_ok; [exact He|]. apply placed_ok_all; assumption.
+  - apply pad_evs_ok.
+Qed.
+
+Lemma xbytes_length_le : forall l, Forall (fun x => exists b r, x_bytes x = b :: r) l ->
+  (length l <= length (xbytes l))%nat.
+Proof.
+  induction l as [|x l IH]; intros H; [cbn; lia|]. inversion H as [|? ? (b & r & E) Hl]; subst.
+  change (xbytes (x :: l)) with (x_bytes x ++ xbytes l). rewrite app_length, E. cbn [length].
+  specialize (IH Hl). lia.
+Qed.
+
+(* the raw loop over a complete chain: fuel S |input| is enough *)
+Lemma raw_loop_all dbg e tbl l off E :
+  Forall (ev_ok dbg e tbl) l -> chain off 0 l -> E = off + nlen (xbytes l) -> E < two63 ->
+  raw_loop (S (length (xbytes l))) dbg e tbl (mkRaw (xbytes l) E 0) = Ok (map x_die l, None).
+Proof.
+  intros Hok Hch HE HE63.
+  assert (Hlen : (length l <= length (xbytes l))%nat).
+  { apply xbytes_length_le. eapply Forall_impl; [|exact Hok]. intros x (H & _). exact H. }
+  replace (S (length (xbytes l))) with (length l + S (length (xbytes l) - length l))%nat by lia.
+  rewrite <- (app_nil_r (xbytes l)) at 2.
+  destruct (raw_loop_chain dbg e tbl l off 0 [] E (S (length (xbytes l) - length l))) as [R _]; try assumption.
+  - change (nlen (@nil byte)) with 0. lia.
+  - unfold two63 in HE63. unfold two64. lia.
+  - rewrite app_nil_r. unfold two63 in HE63. split; unfold nlen in *; lia.
+  - rewrite R. cbn [raw_loop raw_is_empty r_in is_nil bind]. rewrite app_nil_r. reflexivity.
+Qed.
+
+(* positioned access: the entries from a unit offset on *)
+Lemma skip_n_app_len pre post : skip_n (nlen pre) (pre ++ post) = Ok post.
+Proof. apply skip_n_app. Qed.
+
+Lemma entries_raw_at dbg bigend types uoff h pre post o :
+  header_len h + nlen (pre ++ post) < two63 -> post <> [] -> o = header_len h + nlen pre ->
+  entries_raw dbg (parsed_header bigend types uoff h (pre ++ post)) (Some o) =
+  Ok (mkRaw post (header_len h + nlen (pre ++ post)) 0).
+Proof.
+  intros Hlen Hpost Ho. unfold entries_raw, range_from, is_in_bounds. cbn [bind].
+  assert (Hhs : header_size dbg (parsed_header bigend types uoff h (pre ++ post)) = Ok (header_len h)).
+  { apply header_size_parsed. rewrite header_len_split in Hlen. unfold unit_length_of, two63 in *. unfold two64.
+    assert (initial_length_size (uh_fmt64 h) >= 4) by (destruct (uh_fmt64 h); cbn; lia). lia. }
+  rewrite Hhs. cbn [bind]. replace (o <? header_len h) with false by lia.
+  cbn [parsed_header u_entries]. rewrite nlen_app in *.
+  assert (0 < nlen post) by (destruct post; [congruence|rewrite nlen_cons; lia]).
+  replace (o - header_len h <? nlen pre + nlen post) with true by lia. cbn [negb bind].
+  unfold chk_sub. replace (header_len h <=? o) with true by lia. cbn [bind].
+  replace (o - header_len h) with (nlen pre) by lia. rewrite skip_n_app_len. cbn [bind].
+  unfold raw_new, chk_add. change (2 ^ 64) with two64. unfold two63 in Hlen. unfold two64.
+  replace (o + nlen post <? 18446744073709551616) with true by lia. cbn [bind]. f_equal. f_equal. lia.
+Qed.
+
+Lemma entries_raw_root dbg bigend types uoff h body :
+  header_len h + nlen body < two63 -> body <> [] ->
+  entries_raw dbg (parsed_header bigend types uoff h body) None = Ok (mkRaw body (header_len h + nlen body) 0).
+Proof.
+  intros Hlen Hb. unfold entries_raw.
+  assert (Hhs : header_size dbg (parsed_header bigend types uoff h body) = Ok (header_len h)).
+  { apply header_size_parsed. rewrite header_len_split in Hlen. unfold unit_length_of, two63 in *. unfold two64.
+    assert (initial_length_size (uh_fmt64 h) >= 4) by (destruct (uh_fmt64 h); cbn; lia). lia. }
+  rewrite Hhs. cbn [bind].
+  pose proof (entries_raw_at dbg bigend types uoff h [] body (header_len h)) as H.
+  cbn [app] in H. unfold entries_raw in H. cbn [bind] in H. apply H; [assumption|assumption|].
+  change (nlen (@nil byte)) with 0. lia.
+Qed.
+
+Definition unit_enc (bigend : bool) (h : uheader) : enc :=
+  mkEnc (uh_version h) (uh_fmt64 h) (uh_asize h) bigend.
+
+(* Theorem 3 *)
+Lemma raw_is_preorder dbg bigend types uoff h codes f pad tbl :
+  let e := unit_enc bigend h in
+  let body := enc_forest codes bigend (header_len h) f pad in
+  addr_size_ok e -> header_len h + nlen body < two63 -> body <> [] ->
+  all_covered tbl codes f -> forest_ok codes e f -> sibs_fit codes (header_len h) f ->
+  read_all_raw dbg (parsed_header bigend types uoff h body) tbl None =
+  Ok (raw_seq codes (header_len h) f pad, None).
+Proof.
+  intros e body He Hlen Hb H1 H2 H3. unfold read_all_raw.
+  rewrite entries_raw_root by assumption. cbn [bind r_in].
+  change (u_enc (parsed_header bigend types uoff h body)) with e.
+  unfold body. rewrite <- (body_evs_bytes codes bigend (header_len h) f pad).
+  rewrite raw_loop_all with (off := header_len h).
+  - rewrite body_evs_dies. reflexivity.
+  - change bigend with (be e). apply body_evs_ok; assumption.
+  - apply body_evs_chain.
+  - reflexivity.
+  - rewrite body_evs_bytes. exact Hlen.
+Qed.
+
+(* the entries proper of the raw sequence are the preorder *)
+Definition not_null (d : die) : bool := negb (is_null d).
+
+Lemma filter_seq_list_of codes e d : forall l off,
+  Forall (fun t => Forall (node_ok codes e) (nodes t) ->
+                   forall d o, filter not_null (seq_tree codes d o t) = pre_tree codes d o t) l ->
+  Forall (node_ok codes e) (forest_nodes l) ->
+  filter not_null (on_list (seq_tree codes d) (tree_size codes) off l) =
+  on_list (pre_tree codes d) (tree_size codes) off l.
+Proof.
+  induction l as [|t l IH]; intros off H Hok; [reflexivity|]. inversion H; subst.
+  cbn [forest_nodes flat_map] in Hok. apply Forall_app in Hok. destruct Hok as [Ht Hl].
+  rewrite !on_list_cons, filter_app. f_equal; auto.
+Qed.
+
+Lemma filter_seq_tree codes e : forall t, Forall (node_ok codes e) (nodes t) ->
+  forall d off, filter not_null (seq_tree codes d off t) = pre_tree codes d off t.
+Proof.
+  induction t as [tag flag items kids IH] using tree_ind'. intros Hok d off.
+  set (t := Node tag flag items kids) in *.
+  cbn [nodes t] in Hok. inversion Hok as [|? ? Ht Hk]; subst.
+  rewrite seq_tree_unfold. change (pre_tree codes d off t) with
+    (root_die codes off d t :: on_list (pre_tree codes (d + 1)) (tree_size codes) (kids_off codes off t) kids).
+  change (t_kids t) with kids. cbn [filter]. unfold not_null at 1.
+  rewrite (root_die_not_null codes e off d t Ht). cbn [negb]. f_equal.
+  destruct (has_children t) eqn:Hc.
+  - rewrite filter_app. cbn [filter not_null is_null null_at d_tag N.eqb negb]. rewrite app_nil_r.
+    apply (filter_seq_list_of codes e (d + 1) kids); assumption.
+  - apply no_children_no_kids in Hc. change (t_kids t) with kids in Hc. subst kids. reflexivity.
+Qed.
+
+Lemma filter_pad_nulls : forall n off d, filter not_null (pad_nulls off d n) = [].
+Proof. induction n as [|n IH]; intros off d; [reflexivity|]. cbn [pad_nulls filter not_null is_null null_at d_tag N.eqb negb]. apply IH. Qed.
+
+Lemma raw_seq_preorder codes e off f pad : forest_ok codes e f ->
+  filter not_null (raw_seq codes off f pad) = preorder codes off 0 f.
+Proof.
+  intros Hok. unfold raw_seq, preorder. rewrite filter_app, filter_pad_nulls, app_nil_r.
+  apply (filter_seq_list_of codes e 0 f); [|exact Hok].
+  apply Forall_forall. intros t _ Ht d o. apply (filter_seq_tree codes e); assumption.
+Qed.
